@@ -54,6 +54,53 @@ CLAIMS = {
          "Trusted: Coq kernel; hand-written model tied by differential runs; CPython dict/list semantics and txaio callback "
          "ordering mirrored. Not modelled/generated: encrypted payloads, coroutine handlers, id wrap at 2^53, re-join.",
          "invariant + inductive dispatch relation over a Gallina state machine; differential run on virtual time"),
+ "C01": ("5 C01",
+         "Coq theorems over Gallina models of the frame encoder, sendMessage fragmentation, streaming/prepared send APIs and the "
+         "write queue, for every payload, option, key stream and legal call sequence: length and frame round trip through an RFC "
+         "6455 reference parser written from the RFC, wire = well-formed frame sequence reassembling to exactly the sent "
+         "messages in order, FIFO of chopped/synced writes, role policy; the full-strength duplex statement (peer ping arriving "
+         "inside a streaming-API frame) is refuted with a witness (known finding). Differential run: call-by-call octets of the "
+         "real protocol (both roles, Twisted+asyncio, NVX) vs the model, independent frame parser, and end-to-end delivery of "
+         "re-segmented streams to a real peer endpoint.",
+         "Trusted: Coq kernel; hand-written model tied by differential runs. Modelled, not verified: CPython bytes/int/deque, "
+         "txaio.call_later. Delivery by the REAL receive loop under arbitrary segmentation is covered by the end-to-end runs and "
+         "by C02's receive model, not by a joint theorem. Compression is C12, closing is C05. Known findings: duplex/*/peer-ping-"
+         "inside-streaming-frame.",
+         "executable model + refinement invariants + differential runs + independent RFC parser + e2e re-segmentation"),
+ "C10": ("5 C10",
+         "Coq theorems over an executable model of the callee path of ApplicationSession, for all op histories, transports "
+         "(send classified by an oracle), registries and both callback flavours: exactly one terminal reply per accepted "
+         "invocation while the transport is up and classifies correctly, at most one unconditionally, the three real send() "
+         "implementations classified, progress only if requested, argument fidelity, INTERRUPT gives ERROR; progress-before-"
+         "terminal refuted with a witness (known finding). Differential run: real session on scripted and on the four real "
+         "transports (octets in, octets out), both frameworks, vs the model + an oracle from the property text.",
+         "Trusted: Coq kernel; hand-written model tied by differential runs. Modelled, not verified: txaio callback semantics, "
+         "asyncio Task ordering, payload size/serializability as abstract flags. Outside the model: payload encryption (C20), "
+         "traceback_app (C18). Known finding: session.progress/after-terminal-reply.",
+         "invariant proofs over all op histories with monitor functions + correspondence run with independent oracle"),
+ "C14": ("5 C14",
+         "Coq theorems over an executable model of _Transport and Component._start/_connect_once/stop as a callback transition "
+         "system, for all callback sequences and all normalvariate samples: round robin, budget (attempts since last join <= "
+         "max_retries+1), fatal stops, first attempt immediate, every wait <= max_retry_delay, done at most once, listeners "
+         "bubble; the statements the code violates are proved refuted with witnesses (known findings: main raises, stop paths, "
+         "negative delay). Defaults regenerated from the source. Differential run: real Component + real client protocols + "
+         "real session on Twisted MemoryReactorClock and an asyncio virtual loop vs the model + a property oracle.",
+         "Trusted: Coq kernel; model tied by differential runs and a fail-closed translator for _Transport defaults. The "
+         "transport/session stack and the reactor are the model's environment; delays are exact rationals vs doubles (dyadic "
+         "parameters). Not exercised: real sockets, DNS, TLS.",
+         "invariant proof over a callback transition system + differential runs on virtual clocks + property oracle"),
+ "C19": ("5 C19",
+         "Coq theorems (partial: cryptographic strength assumed) over an executable model of the auth glue, quantified over all "
+         "hash/HMAC/KDF/signature oracles satisfying length and sign-verify laws: WAMP-CRA = the router's computation, TOTP = "
+         "RFC 4226 truncation (offset <= 15, six digits, +-1 window), SCRAM proof accepted by the RFC 5802 server equation (xor "
+         "involution) with RFC 5802 AuthMessage assembly and pbkdf2/argon2id dispatch, on_welcome accepts iff the exact server "
+         "signature, cryptosign signs challenge XOR channel id; hex/base64 codecs concrete with proved round trips. "
+         "Differential run: the model evaluated with the recorded primitive calls as oracle tables reproduces the real code byte "
+         "for byte; independent RFC verifiers (PBKDF2, HOTP/TOTP, SCRAM server, Ed25519) and single-bit alteration sweeps.",
+         "Partial: 'any alteration yields a different signature' is collision resistance/unforgeability of the primitives - assumed, "
+         "sampled by bit flips, not proved. Trusted: Coq kernel; model tied by recorded-oracle correspondence plus one AST-read "
+         "flag (fail-closed); saslprep, repr(bytes) are oracles.",
+         "Coq proof over oracle-parametric glue model + recorded-oracle correspondence + RFC verifiers / bit-flip sweep"),
 }
 NOT_YET = {}
 
